@@ -397,8 +397,8 @@ func (p *projSpec) sourceDirs() []string {
 	var out []string
 	for i := range p.Targets {
 		t := &p.Targets[i]
-		for _, s := range t.Sources {
-			if strings.HasPrefix(s, "dir_") {
+		for _, s := range append(append([]string{}, t.Sources...), t.GlobDirs...) {
+			if strings.HasPrefix(s, "dir_") || strings.HasPrefix(s, "gdir_") {
 				d := p.sourceRel(t, s)
 				if !seen[d] {
 					seen[d] = true
